@@ -225,7 +225,7 @@ Proof.
   assert (G : match st_enc_header c t v (calc_byte_len p mod 4294967296) with
               | Ok h => Ok (h ++ fst (enc_prim c p) ++ (if N.odd (snd (enc_prim c p)) then [ps35_pad v] else []))
               | Err e => Err e | Panic w => Panic w end = Ok b).
-  { rewrite <- P. rewrite <- E. unfold enc_prim_element.
+  { rewrite <- P. rewrite <- E. unfold enc_prim_element, enc_binary.
     destruct p; try contradiction; destruct v; try contradiction; destruct (enc_prim c _); reflexivity. }
   clear E. rewrite enc_prim_count, N_odd_blen in G.
   set (raw := fst (enc_prim c p)) in *.
